@@ -227,16 +227,18 @@ func MergeErrors(err, other error) error {
 	}
 	e := asError(err)
 	o := asError(other)
-	if e.Name == "error" {
-		e.Name = o.Name
-	}
 
 	// Combine error lineage. We only ever put original errors into the history slice, so we
 	// don't need to worry about gaining intermediate merges.
 	//
-	// Do this before we modify ourselves, as History() may include us!
-	e.history = append(e.History(), o.History()...)
+	// Do this before we modify ourselves and record copies of the original errors: e is
+	// updated in place below and must not alter the history entry that describes it.
+	e.history = append(e.originals(), o.originals()...)
 	e.err = errors.Join(e.err, o.err)
+
+	if e.Name == "error" {
+		e.Name = o.Name
+	}
 
 	e.Message = e.Message + "; " + o.Message
 	e.Timeout = e.Timeout && o.Timeout
@@ -253,6 +255,16 @@ func (e *ServiceError) History() []*ServiceError {
 	}
 
 	return []*ServiceError{e}
+}
+
+// originals returns the history of e. If e has not been merged yet the history
+// consists of a copy of e so that later updates to e do not change it.
+func (e *ServiceError) originals() []*ServiceError {
+	if len(e.history) > 0 {
+		return e.history
+	}
+	orig := *e
+	return []*ServiceError{&orig}
 }
 
 // Error returns the error message.
